@@ -184,6 +184,19 @@ CHECKS = {
         "the int16 maximising-row bound is an explicit assumption of the bit-precise chain backed by the rounding-model proof and the exhaustive enumeration.",
         technique="contract-based deductive verification: bit-precise QF_FP postconditions of the real code (z3), real-arithmetic rounding-model lemma; exhaustive native enumeration of one single-variable lemma as labelled stand-in",
     ),
+    "C15": dict(
+        text=("The real tearfree()/praxis_shim.sharded_chain/second_order.apply/grafting.graft/momentum.apply are executed for 80 "
+              "option combinations (ema, Nesterov, weight decay on/off and before/after the momentum, momentum on/off, constant or "
+              "scheduled lr, grafting NONE/SGD) with the second-order step as a contract: the update equals "
+              "-lr(t) * momentum(weight decay(graft(unmerge(PG)))) pointwise (hence exactly linear in lr), the trace buffer update, each "
+              "transform receiving its own state slice, merge before and unmerge after the second-order step (a merged parameter). "
+              "Tearfree Shampoo statistics C' = beta C + (1-beta) G G' and roots V diag(h^2) V', h = lambda^(-1/(2*2*rank)), per-block "
+              "1e-6 cut-off, and Sketchy's (inv_tail (I-VV') + V diag(inv_eig) V') application along every axis, as polynomial "
+              "identities at small sizes with symbolic entries. Block-wise contraction of axis a with root a: C08."),
+        design="7/C15",
+        note=TB + " optax.trace / scale / scale_by_schedule / add_decayed_weights enter by their documented update formulas (library contracts); eigh opaque.",
+        technique="contract-based deductive verification: composition post-condition on the real chain, AST->VC, z3 (case analysis + polynomial normalisation)",
+    ),
 }
 
 NA_REASON = "check not built yet (build in progress); the planned contract kernel is described in DESIGN.md section 7"
